@@ -9,4 +9,12 @@ pub mod model;
 pub mod trie;
 pub mod strie;
 pub mod c05;
+pub mod dirmodel;
+pub mod c06;
+pub mod marker_table;
+pub mod c07;
+pub mod c07l2;
+pub mod c07l1;
+pub mod c07shape;
+pub mod c07upd;
 pub mod selftest;
